@@ -16,7 +16,7 @@ import re
 
 from mirsmt import Smt, solve, mk_deref, mk_v2b, split_sexpr_args
 from exec2 import is_addr
-from stdmodels import PMExec, Inconclusive, std_models, _deep, run_closure, conj
+from stdmodels import PMExec, Inconclusive, std_models, _deep, run_closure, run_closure_forks, conj
 from queries_c05 import _find, _src
 
 
@@ -55,8 +55,7 @@ def q_c02_remove_prefix(bodies):
 
         def m_modify(ex, v, env):
             env["__log"] = env.get("__log", ()) + (("modify", _deep(ex, env, v[0])),)
-            rs = run_closure(ex, env, v[1], ["(ref TBL)"])
-            return [(conj(c), r) for c, r in rs]
+            return run_closure_forks(ex, env, v[1], ["(ref TBL)"])
         m_modify.wants_env = True
 
         def m_extract(ex, v, env, rows=rows):
